@@ -1,5 +1,20 @@
 //! vv — runtime-monitoring harness for vibesql. See /verif/DESIGN.md.
 
+// the CLI is a binary crate: its modules are compiled into the harness so that \\copy runs the
+// repository's own code (crate::commands, crate::data_io, crate::executor, crate::formatter are
+// the paths those files use for each other)
+#[allow(dead_code, unused_imports)]
+#[path = "/repo/crates/vibesql-cli/src/commands.rs"]
+mod commands;
+#[allow(dead_code)]
+#[path = "/repo/crates/vibesql-cli/src/data_io.rs"]
+mod data_io;
+#[allow(dead_code)]
+#[path = "/repo/crates/vibesql-cli/src/executor/mod.rs"]
+mod executor;
+#[allow(dead_code)]
+#[path = "/repo/crates/vibesql-cli/src/formatter.rs"]
+mod formatter;
 mod checks;
 mod core;
 mod gen;
